@@ -98,8 +98,10 @@ def convert(fn, cls, info, rules, drop=(), synth_obj="g_synth", extra_scopes=(),
     name = fn.name.split("::")[-1]
     ret = re.sub(r"\b(OPNMIDIplay|OPN2|MIDIchannel|NoteInfo|OpnChannel)::", "", fn.ret)
     ret = ret.replace("OPNMIDI_EXPORT", "").replace("OPNMIDI_DECLSPEC", "").strip()
-    macros = "".join("#define %s (*%s__p)\n" % (r, r) for r in refs + ref_macros)
-    undefs = "".join("#undef %s\n" % r for r in refs + ref_macros)
+    # R3/R4: uses of a reference local / reference parameter become (*name__p).  Done by guarded textual substitution
+    # (not by a macro): a member access `.name` / `->name` of the same spelling must stay untouched.
+    macros = refs + ref_macros     # applied by emit() after the per-function post rules
+    undefs = ""
     return name, ret, params, macros, text, undefs
 
 
@@ -168,12 +170,15 @@ def emit(workdir, specs, out="extracted.c", types=True, prelude_after=None):
                                                           extra_scopes=sp.get("scopes", ()), drop_if=sp.get("drop_if", ()),
                                                           protected=sp.get("protected", ()), cut_at=sp.get("cut_at"), epilogue=sp.get("epilogue", ""), cut_from=sp.get("cut_from"))
         if sp.get("params_override"):
-            params = sp["params_override"]; macros += "".join("#define %s (*%s__p)\n" % (r, r) for r in sp.get("ref_params", ())); undefs += "".join("#undef %s\n" % r for r in sp.get("ref_params", ()))
+            params = sp["params_override"]
         for pat, rep in sp.get("post", ()):   # per-function syntactic edits, recorded like any other rule
             text, n = re.subn(pat, rep, text)
             rules._count("POST:" + pat[:40], n)
             if n == 0:
                 raise ExtractionError("post rule did not fire in %s: %s" % (fn.name, pat))
+        for r in list(macros) + list(sp.get("ref_params", ()) if sp.get("params_override") else []):
+            text = re.sub(r"(?<![\w\.>])%s\b" % re.escape(r), "(*%s__p)" % r, text)
+        macros = ""
         for must in sp.get("must", ()):
             if not any(k.startswith(must) and v > 0 for k, v in rules.fired.items()):
                 raise ExtractionError("rule %s must fire in %s" % (must, fn.name))
